@@ -55,11 +55,11 @@ P = {
         "The monitor judges clause (b) on the exact representation number*10^scale; for the double read back it allows the spacing of doubles at v in addition "
         "(above 2^39 that spacing alone exceeds 0.0001). The time-period monitor brackets the code's own clock readings with the harness clock."
     ),
-    "props_modules": ["Spine.Props.C19", "Spine.Props.C19Layouts", "Spine.Props.C19Instants"],
-    "generated_props": ["Spine.Props.C19Layouts", "Spine.Props.C19Instants"],
-    "generated": ["timelayouts"],
-    "generated_files": ["TimeLayouts.lean"],
-    "lemma_modules": ["Spine.C19", "Spine.RndSound", "Spine.C19Exec", "Spine.DurText", "Spine.DurTextThm", "Spine.TimeText", "Spine.TimeTextThm"],
+    "props_modules": ["Spine.Props.C19", "Spine.Props.C19Layouts", "Spine.Props.C19Instants", "Spine.Props.C19Scaled"],
+    "generated_props": ["Spine.Props.C19Layouts", "Spine.Props.C19Instants", "Spine.Props.C19Scaled"],
+    "generated": ["timelayouts", "scaledexpr"],
+    "generated_files": ["TimeLayouts.lean", "ScaledExpr.lean"],
+    "lemma_modules": ["Spine.C19", "Spine.RndSound", "Spine.C19Exec", "Spine.DurText", "Spine.DurTextThm", "Spine.TimeText", "Spine.TimeTextThm", "Spine.FExpr"],
     "drivers": ["drv_num"],
     "tests": [{"name": "TestNumeric"}],
     "trusted_base": [
